@@ -178,6 +178,11 @@ def plan(tier, rng, sl, nslices, stats):
         r = rng.random()
         b = None if r < 0.1 else gfst.random_case(rng, vcs=[a["vc"]] if rng.random() < 0.7 else None)
         c = {"a": a, "b": b}
+        if i % 5 == 1:
+            c["nested"] = True
+            a["trans"] = a["trans"][:3]
+            if b:
+                b["trans"] = b["trans"][:3]
         if i % 4 == 0:
             c["fa"] = gfa.random_case(rng, max_states=3, max_syms=2, vcs=["int", "str"])
         yield c
@@ -204,9 +209,21 @@ def run_case(c, stats):
             ok, r = call(f)
             if ok:
                 results.append(r)
+        if c.get("nested"):
+            # operations on results: star of star, star of a concatenation with a starred operand (fresh-name paths)
+            ok1, s1 = call(A.kleene_star)
+            if ok1:
+                ok2, s2 = call(s1.kleene_star)
+                if ok2:
+                    ok3, cc = call(s2.concatenate, B)
+                    if ok3:
+                        ok4, s3 = call(cc.kleene_star)
+                        if ok4:
+                            results.append(s3)
+                            call(s3.union, s2)
         # the library's own translate on the results (second route)
         with core.oracle_mode():
-            for r in results[:3]:
+            for r in results[-4:]:
                 rr = extract.fst(r)
                 if rr.eps_cycle_writes():
                     continue
